@@ -62,7 +62,7 @@ NOT_STRICT = {
     "RLRT": "extends to the last valid state of a motion (3-argument checkMotion)",
     "BiRLRT": "extends to the last valid state of a motion (3-argument checkMotion)",
     "STRIDE": "partial motions via 3-argument checkMotion (as KPIECE1)",
-    "RRT+intermediate": "intermediate_states=1 inserts the (n+1)-subdivision points of a motion validated at its n-subdivision points (getMotionStates(count = validSegmentCount) increments count)",
+    "RRT+intermediate": "with intermediate_states=1 consecutive path states are the j/n check points of ONE validated motion (since fdd06210b; before, the never-checked j/(n+1) points: F110), not individually validated motions: a piece is ~ one resolution length long and its validSegmentCount is 2 by rounding when the motion length is a multiple of the resolution length - the piece's midpoint was never looked at and may lie in an obstacle thinner than the resolution (54 of 400 boundary-range runs on the fixed tree); the gap clause and the `vertex` clause (every path state valid) are enforced instead",
     "RRTConnect+intermediate": "as RRT+intermediate",
     "Lightning": "retrieves a stored path, repairs invalid pieces with a sub-planner and runs PathSimplifier over the result",
     "QRRT": "multilevel: path assembled over bundle-space graphs; edge discipline not analysed",
@@ -73,7 +73,7 @@ NOT_STRICT = {
 # planners exempt from the strict form whose reported path *vertices* are nevertheless states they validated one by one
 # (sampled valid states, or the `lastValid` state of a 3-argument checkMotion): an invalid vertex is a failure (clause
 # `vertex`).  Not in this list: PDST (split points), AnytimePathShortening (simplifier's interpolated states), the
-# multilevel planners.  RRT / RRTConnect with intermediate states ARE in it (round 7, F110): the flag is documented as
+# multilevel planners.  RRT / RRTConnect with intermediate states ARE in it (round 7, F110 - fixed): the flag is documented as
 # adding "the intermediate states generated along motions" - the states the motion validator generated and looked at -
 # so every tree vertex, hence every path state, is a state that was answered valid; PathGeometric::check() (the
 # library's own definition of a valid path, an anchor of this property) fails on a path with an invalid state.  Only the
@@ -466,13 +466,15 @@ def gen_interm(r):
     length and motions several valid segments long, so that a motion may legitimately step over the wall between two of
     its j/n check points - the states then ADDED to the tree must be the states that were checked, not other points of
     the same motion (F110: getMotionStates is handed the segment count as the number of interior states and returns the
-    j/(n+1) points, which nobody looked at)."""
+    j/(n+1) points, which nobody looked at; fixed by fdd06210b, a revert shows as clause `vertex`)."""
     d = r.choice([2, 2, 3])
     off = r.choice([0.0, 0.0, -2.0])
     lo, hi = [off] * d, [off + 1.0] * d
     res = r.choice([0.03, 0.05, 0.08])
     lvs = res * math.sqrt(d)
     rng = r.uniform(2.5, 7.0) * lvs
+    if r.below(3) == 0:
+        rng = float(r.choice([2, 3, 4, 5, 6])) * lvs  # boundary: the range is an exact multiple of the resolution length
     boxes = []
     for k in range(r.choice([1, 2, 3])):
         w = r.uniform(0.35, 0.9) * lvs
@@ -1496,7 +1498,7 @@ MANIFEST = {
             "(R^3 over R^2; SE(2) over R^2 aborts inside solve on the unchanged tree and is counted as a crash) are run on random and adversarial box environments and every reported "
             "solution is judged by an independent spec oracle (valid in-bounds start, bounds, goal/approximate/difference/status "
             "consistency, no invalid stretch longer than twice the resolution length, and for planners in the strict table every "
-            "consecutive pair passes the motion check again, for RRT / RRTConnect with intermediate states every path state is valid; non-solution statuses add no path), including Dubins and Reeds-Shepp "
+            "consecutive pair passes the motion check again, for RRT / RRTConnect with intermediate states (modelled and lock-stepped as fixed by fdd06210b: the added chain is the validator's own check points) every path state is valid; non-solution statuses add no path), including Dubins and Reeds-Shepp "
             "spaces for the planners that support them, a direction-sensitive motion validator (a motion may be valid one way and "
             "invalid the other: no reported edge may be blocked in the direction the path travels it, enforced for the planners "
             "whose code validates the travelled direction, counted for the others), and the constructive unobserved-gap attack "
